@@ -323,7 +323,7 @@ Proof.
 Qed.
 
 
-Lemma E_trim_group prev x : E_item (trim_group prev x) = E_item x.
+Lemma E_trim_group out x : E_item (trim_group out x) = E_item x.
 Proof.
   destruct x as [t|d items]; [reflexivity|]. cbn [trim_group].
   set (items1 := if last_is items s_comma then _ else items).
@@ -334,7 +334,7 @@ Proof.
   destruct (drops_tail_semi items1) eqn:Hd; [|exact H1].
   rewrite (E_removelast_semi _ Hd). exact H1.
 Qed.
-Lemma E_trim_groups seq : forall prev, E (trim_groups prev seq) = E seq.
+Lemma E_trim_groups seq : forall out, E (trim_groups out seq) = E seq.
 Proof.
   induction seq as [|x r IH]; intros prev; [reflexivity|].
   cbn [trim_groups]. cbv zeta. rewrite !E_cons, IH, E_trim_group. reflexivity.
@@ -512,9 +512,9 @@ Proof.
         cbn [map]. constructor; [|exact IHl].
         intros d s Hd. cbn [fst snd] in *. subst c. apply (Hc (set_macro_def o) (Some DBrace)).
     + cbv zeta.
-      set (g := if o_remove_nested_parens o && negb (call_like (hd_error out)) then collapse_parens (Grp d (rec o (Some d) (Grp d sub))) else Grp d (rec o (Some d) (Grp d sub))).
+      set (g := if o_remove_nested_parens o && negb (arg_pos out) then collapse_parens (Grp d (rec o (Some d) (Grp d sub))) else Grp d (rec o (Some d) (Grp d sub))).
       assert (Hg : E_item g = E sub).
-      { subst g. destruct (o_remove_nested_parens o && negb (call_like (hd_error out))); [rewrite E_collapse|]; rewrite E_grp; apply (Hx o (Some d)). }
+      { subst g. destruct (o_remove_nested_parens o && negb (arg_pos out)); [rewrite E_collapse|]; rewrite E_grp; apply (Hx o (Some d)). }
       clearbody g.
       assert (Hdef : forall sk, E (norm_loop rec o ctx (g :: out) sk rest) = E (rev out) ++ E (Grp d sub :: rest)).
       { intros sk. rewrite IH by (auto; cbn [length]; lia). ess_done. rewrite Hg. reflexivity. }
@@ -525,7 +525,7 @@ Proof.
                 else norm_loop rec o ctx (g :: out) false rest) with l => l end) = E (rev out) ++ E (Grp d sub :: rest)).
       { destruct (is_tok_o (hd_error out) s_bang && match out with _ :: y :: _ => is_ident y | _ => false end); [exact Hmac|apply Hdef]. }
       destruct g as [t|[| |] [|[t|d3 s3] [|z its]]]; try exact Hrest.
-      destruct (starts_with_digit t && negb (call_like (hd_error out))); [|exact Hrest].
+      destruct (starts_with_digit t && negb (arg_pos out)); [|exact Hrest].
       rewrite IH by (auto; cbn [length]; lia). ess_done. rewrite <- Hg. ess_done.
 Qed.
 End Loop.
@@ -1125,7 +1125,7 @@ Qed.
 
 
 Lemma trim_group_equiv c P x Q : c <> CMacro ->
-  Equiv c (P ++ x :: Q) (P ++ trim_group (lasto P) x :: Q).
+  Equiv c (P ++ x :: Q) (P ++ trim_group (rev P) x :: Q).
 Proof.
   intros Hc. destruct x as [t|d items]; [apply Eq_refl|]. cbn [trim_group].
   set (items1 := if last_is items s_comma then _ else items).
@@ -1139,14 +1139,14 @@ Proof.
   destruct (drops_tail_semi items1) eqn:Hd; [|apply Eq_refl].
   apply tail_semi_equiv; assumption.
 Qed.
-Lemma trim_groups_equiv c seq : c <> CMacro -> forall P, Equiv c (P ++ seq) (P ++ trim_groups (lasto P) seq).
+Lemma trim_groups_equiv c seq : c <> CMacro -> forall P, Equiv c (P ++ seq) (P ++ trim_groups (rev P) seq).
 Proof.
   intros Hc. induction seq as [|x r IH]; intros P; [apply Eq_refl|].
   cbn [trim_groups]. cbv zeta.
   eapply Eq_trans; [apply trim_group_equiv; exact Hc|].
-  set (x' := trim_group (lasto P) x).
+  set (x' := trim_group (rev P) x).
   rewrite <- (app_cons_assoc P x' r), <- (app_cons_assoc P x' (trim_groups _ r)).
-  rewrite <- (lasto_snoc P x'). apply IH.
+  rewrite <- (rev_unit P x'). apply IH.
 Qed.
 
 Lemma wstate_snoc P x : wstate (P ++ [x]) = wstep (wstate P) x.
@@ -1320,7 +1320,7 @@ Proof.
   apply (macro_arms_equiv (glue2 items) [] [] eq_refl (Forall_nil _) HgF).
 Qed.
 
-Lemma collapse_equiv c P Q : call_like (lasto P) = false ->
+Lemma collapse_equiv c P Q : arg_pos (rev P) = false ->
   forall g, Equiv c (P ++ g :: Q) (P ++ collapse_parens g :: Q).
 Proof.
   intros Hcl g. induction g as [s|d its IH] using item_ind'; [apply Eq_refl|].
@@ -1407,11 +1407,11 @@ Proof.
       assert (Hin : Equiv c (rev out ++ Grp d sub :: rest) (rev out ++ Grp d inner :: rest)).
       { apply Eq_nest; [apply sctx_of_not_macro|rewrite macro_def_pos_rev; exact Hm|apply (Hx o (Some d))]. }
       eapply Eq_trans; [exact Hin|]. clearbody inner. clear Hin.
-      set (g := if o_remove_nested_parens o && negb (call_like (hd_error out)) then collapse_parens (Grp d inner) else Grp d inner).
+      set (g := if o_remove_nested_parens o && negb (arg_pos out) then collapse_parens (Grp d inner) else Grp d inner).
       assert (Hg : Equiv c (rev out ++ Grp d inner :: rest) (rev out ++ g :: rest)).
-      { subst g. destruct (o_remove_nested_parens o && negb (call_like (hd_error out))) eqn:Hc; [|apply Eq_refl].
+      { subst g. destruct (o_remove_nested_parens o && negb (arg_pos out)) eqn:Hc; [|apply Eq_refl].
         apply andb_true_iff in Hc. destruct Hc as [_ Hc]. apply negb_true_iff in Hc.
-        apply collapse_equiv. rewrite lasto_rev. exact Hc. }
+        apply collapse_equiv. rewrite rev_involutive. exact Hc. }
       eapply Eq_trans; [exact Hg|]. clearbody g. clear Hg.
       assert (Hdef : Equiv c (rev out ++ g :: rest) (norm_loop rec o ctx (g :: out) false rest)).
       { rewrite <- rev_cons_app. apply IH; [cbn [length]; lia|exact HF'|apply Hnoskip]. }
@@ -1427,9 +1427,9 @@ Proof.
         - rewrite <- rev_cons_app. apply IH; [cbn [length]; lia|exact HF'|].
           intros _. eexists. exists out. split; [reflexivity|exact Hpos]. }
       destruct g as [t|[| |] [|[t|d3 s3] [|z its]]]; try exact Hrest.
-      destruct (starts_with_digit t && negb (call_like (hd_error out))) eqn:Hl; [|exact Hrest].
+      destruct (starts_with_digit t && negb (arg_pos out)) eqn:Hl; [|exact Hrest].
       apply andb_true_iff in Hl. destruct Hl as [Hl1 Hl2]. apply negb_true_iff in Hl2.
-      eapply Eq_step_then; [apply S_literal_parens; [rewrite lasto_rev; exact Hl2|exact Hl1]|].
+      eapply Eq_step_then; [apply S_literal_parens; [rewrite rev_involutive; exact Hl2|exact Hl1]|].
       rewrite <- rev_cons_app. apply IH; [cbn [length]; lia|exact HF'|apply Hnoskip].
 Qed.
 End LoopE.
@@ -2085,5 +2085,39 @@ Proof.
   intros [H _]. specialize (H eq_refl). vm_compute in H.
   destruct H as (_ & _ & _ & H & _). discriminate H.
 Qed.
+
+(* ------------------------------------------------------------------ *)
+(* one-element tuples.  The checker keeps the comma of  let (a,) = b;  (trailing_seps / trim_group: a `(` group
+   with no other element separator (tuple_commas) that is not in argument position (arg_pos)).  Equiv, being closed under
+   symmetry and transitivity, may pass through ILL-FORMED intermediates, and the prototype removes an empty `<>`
+   anywhere: via  let <> (a,) = b;  (where the group follows `>`) it relates the 1-tuple pattern and the
+   parenthesised one.  So Equiv is strictly coarser than the checker: norm_sound's conclusion does not separate
+   them, the checker does. *)
+Definition tup_a : list item :=
+  [Tok s_let; Grp DParen [Tok [97]; Tok s_comma]; Tok s_eq; Tok [98]; Tok s_semi].
+Definition tup_b : list item :=
+  [Tok s_let; Grp DParen [Tok [97]]; Tok s_eq; Tok [98]; Tok s_semi].
+Lemma Equiv_tuple_comma_refuted_lemma : exists (o : opts) (a b : list item),
+  norm_seq o None a <> norm_seq o None b /\ Equiv CTop a b.
+Proof.
+  exists o_default, tup_a, tup_b. split; [vm_compute; discriminate|].
+  eapply Eq_trans.
+  { apply Eq_sym. apply Eq_step.
+    exact (S_empty_generics CTop [Tok s_let] (Grp DParen [Tok [97]; Tok s_comma] :: [Tok s_eq; Tok [98]; Tok s_semi])). }
+  eapply Eq_trans.
+  { apply Eq_step.
+    exact (S_trailing_sep CTop [Tok s_let; Tok s_lt; Tok s_gt] DParen [Tok [97]] [Tok s_eq; Tok [98]; Tok s_semi] eq_refl). }
+  apply Eq_step. exact (S_empty_generics CTop [Tok s_let] (Grp DParen [Tok [97]] :: [Tok s_eq; Tok [98]; Tok s_semi])).
+Qed.
+(* in call position the comma is optional, in one step *)
+Lemma Equiv_call_comma_lemma :
+  Equiv CTop [Tok [102]; Grp DParen [Tok [97]; Tok s_comma]; Tok s_semi] [Tok [102]; Grp DParen [Tok [97]]; Tok s_semi].
+Proof. apply Eq_step. exact (S_trailing_sep CTop [Tok [102]] DParen [Tok [97]] [Tok s_semi] eq_refl). Qed.
+(* in tuple position the trailing-separator step itself does not apply: its side condition is false *)
+Lemma tuple_comma_no_step_condition :
+  negb (delim_eqb DParen DParen) || Nat.leb 2 (tuple_commas ([Tok [97]] ++ [Tok s_comma])) || arg_pos (rev [Tok s_let]) = false
+  /\ trim_group [Tok s_let] (Grp DParen [Tok [97]; Tok s_comma]) = Grp DParen [Tok [97]; Tok s_comma]
+  /\ trim_group [Tok [102]] (Grp DParen [Tok [97]; Tok s_comma]) = Grp DParen [Tok [97]].
+Proof. repeat split; reflexivity. Qed.
 
 (* END-OF-PART *)
